@@ -69,41 +69,47 @@ Ltac simp_casts :=
   | |- context [cast U8 ?v] => is_var v; rewrite (cast_u8_small v) by lia
   end.
 
-(* The goal has the form  Q (let x := v in body).  One primitive call with two outputs occupies two consecutive lets
-   (fst / snd of the same call): both are introduced as variables together with the linear equation and the ranges. *)
+(* The goal has the form  Q (let x := v in body).  The let is floated out with a lemma (no `change`: the kernel re-checks nothing but a
+   beta step), the bound value becomes a universally quantified variable with its defining equation. *)
+Lemma let_float {A B : Type} (v : A) (body : A -> B) (Q : B -> Prop) :
+  (forall x, x = v -> Q (body x)) -> Q (let x := v in body x).
+Proof. intros H. exact (H v eq_refl). Qed.
+
+(* One primitive call with two outputs occupies two consecutive lets (fst / snd of the same call): both are introduced as variables
+   together with the linear equation and the ranges. *)
 Ltac step2 lin :=
   simp_casts;
   lazymatch goal with
   | |- ?Q (let x := fst (?f ?c ?a ?b) in @?body x) =>
       let x' := fresh "v" in let k' := fresh "k" in let H := fresh "E" in
-      pose (x' := fst (f c a b)); change (Q (body x')); cbv beta;
+      let Hx := fresh in let Hk := fresh in
+      refine (let_float (fst (f c a b)) body Q _); intros x' Hx; cbv beta;
       lazymatch goal with
       | |- Q (let k := snd (f c a b) in @?body2 k) =>
-          pose (k' := snd (f c a b)); change (Q (body2 k')); cbv beta
+          refine (let_float (snd (f c a b)) body2 Q _); intros k' Hk; cbv beta
       end;
       let R1 := fresh in let R2 := fresh in let R3 := fresh in
       assert (R1 : 0 <= c <= 1) by rng; assert (R2 : 0 <= a < 2 ^ 32) by rng; assert (R3 : 0 <= b < 2 ^ 32) by rng;
-      pose proof (lin c a b x' k' R1 R2 R3 eq_refl eq_refl) as H;
-      clear R1 R2 R3; clearbody x' k'
+      pose proof (lin c a b x' k' R1 R2 R3 Hx Hk) as H;
+      clear R1 R2 R3 Hx Hk
   end.
 Ltac step1 cm :=
   simp_casts;
   lazymatch goal with
   | |- ?Q (let x := ?f ?c ?a ?b in @?body x) =>
-      let x' := fresh "r" in let H := fresh "E" in
-      pose (x' := f c a b); change (Q (body x')); cbv beta;
+      let x' := fresh "r" in let H := fresh "E" in let Hx := fresh in
+      refine (let_float (f c a b) body Q _); intros x' Hx; cbv beta;
       let R1 := fresh in let R2 := fresh in let R3 := fresh in
       assert (R1 : 0 <= c <= 1) by rng; assert (R2 : 0 <= a < 2 ^ 32) by rng; assert (R3 : 0 <= b < 2 ^ 32) by rng;
-      pose proof (cm c a b x' R1 R2 R3 eq_refl) as H;
-      clear R1 R2 R3; clearbody x'
+      pose proof (cm c a b x' R1 R2 R3 Hx) as H;
+      clear R1 R2 R3 Hx
   end.
 (* a plain let (no primitive call): keep the definition as an equation *)
 Ltac steplet :=
   lazymatch goal with
   | |- ?Q (let x := ?v in @?body x) =>
       let x' := fresh "w" in let H := fresh "D" in
-      pose (x' := v); change (Q (body x')); cbv beta;
-      assert (H : x' = v) by reflexivity; clearbody x'
+      refine (let_float v body Q _); intros x' H; cbv beta
   end.
 
 Lemma mod_eq_0 a m r : 0 <= r < m -> a = r -> r = a mod m.
